@@ -31,13 +31,23 @@ def sweep(ctx, exe, protos, variants, all_errnos):
         cases.append("CASE %s %s -1 EMFILE" % (p, v))
         for k in range(1, n + 1):
             cases.append("CASE %s %s %d EMFILE" % (p, v, k))
+    # double faults: every pair k < k2 in the thorough tier, a seeded sample of pairs otherwise
+    rng = ctx.rng.fork("pairs")
+    for c, o in zip(counts, out):
+        _, p, v = c.split()
+        n = int(o.split("=")[1])
+        for k in range(1, n):
+            for k2 in range(k + 1, n + 1):
+                if all_errnos or rng.chance(1, 40):
+                    cases.append("CASE %s %s %d EMFILE %d %s" % (p, v, k, k2, "EMFILE" if (k + k2) % 3 else "ENOMEM"))
+                    ctx.count("life.double_fault_cases")
     rc, out, err = sysattr.run(exe, cases, ctx, timeout=3000)
     results = list(zip(cases, out))
     if all_errnos:
         # second round: the other plausible errnos of the call that was hit
         more = []
         for c, o in results:
-            if o.startswith("failed_call="):
+            if o.startswith("failed_call=") and len(c.split()) == 5:
                 name = fields(o)["failed_call"].split(":")[0]
                 for e in ERRNOS.get(name, [])[1:]:
                     more.append(c.rsplit(" ", 1)[0] + " " + e)
